@@ -3,6 +3,7 @@
 package main
 
 import (
+	"bytes"
 	"fmt"
 	"regexp"
 	"strings"
@@ -217,6 +218,24 @@ func cmdC11(seed uint64, tier, outdir string) {
 			vw.printf("VIOL %s %s: %s\n", cls, in.name, verdict)
 		}
 	}
+	// a Normalize result belongs to the caller: later calls on the same classifier must not change it
+	hv := mustCreate(outdir, "c11h.verdicts")
+	hc := mustCreate(outdir, "c11h.cases")
+	for k := 0; k < 6 && k+1 < nLicenseBearing; k++ {
+		a, b := ins[r.intn(nLicenseBearing)], ins[r.intn(nLicenseBearing)]
+		na, p1 := normalizeSafe(bc.c, a.data)
+		snap := append([]byte{}, na...)
+		_, p2 := normalizeSafe(bc.c, b.data)
+		bc.c.Match(b.data)
+		hc.printf("history: Normalize(%s), then Normalize/Match(%s)\n", a.name, b.name)
+		if !p1 && !p2 && !bytes.Equal(na, snap) {
+			hv.printf("VIOL - the text returned by Normalize(%s) changed after a later Normalize call on the same classifier\n", a.name)
+		} else {
+			hv.printf("OK 1\n")
+		}
+	}
+	hv.close()
+	hc.close()
 	cw.close()
 	iw.close()
 	vw.close()
